@@ -137,7 +137,7 @@ def build(case):
         sub_case = {'n': n, 'nE': s['nE'], 'check': s['check'], 'vals': s['vals'], 'status': s['status'], 'iters': s['iters'],
                     'script': s['script'], 'before': [], 'after': [],
                     'names': s.get('names'), 'prov': s.get('prov', 'fresh'), 'write': s.get('write', 'inplace'),
-                    'mix': s.get('mix')}
+                    'mix': s.get('mix'), 'check_edit': s.get('check_edit'), 'strict': s.get('strict')}
         m = sc.build_instance(sub_case, exo=())
         m.__dict__['calls'] = ProxyLog(log, i)
         subs[i] = m
@@ -229,7 +229,14 @@ def gen_case(rng):
                      'iters': [rng.choice([-1, 5]) for _ in range(n)] if rng.random() < 0.3 else [-1] * n,
                      # implementation-side variations the model cannot see
                      'names': rng.choice(sc.NAME_STYLES), 'prov': rng.choice(sc.PROVENANCES),
-                     'write': rng.choice(['inplace', 'inplace', 'rebind']), 'mix': rng.choice(sc.MIXES)})
+                     'write': rng.choice(['inplace', 'inplace', 'rebind']), 'mix': rng.choice(sc.MIXES),
+                     'check_edit': rng.random() < 0.3, 'strict': rng.random() < 0.2})
+        for acts in script:
+            for a in acts:
+                if a.get('k') == 'raise':
+                    # (KeyError / IndexError / NonConvergenceError are left out here: the linker reports unknown submodel ids,
+                    #  out-of-span offsets and its own non-convergence with those classes, and this harness tells outcomes apart by exception class)
+                    a['exc'] = rng.choice([k for k in sc.EXCEPTION_KINDS if k not in ('KeyError', 'IndexError', 'NonConvergenceError')])
     nL = rng.choice([0, 0, 1, 2])
     lcheck = sorted(rng.sample(range(nL), rng.choice([nL, 0]))) if nL else []
     lvals = [[float(rng.choice([0.0, 1.0, 7.0])) for _ in range(n)] for _ in range(nL)]
